@@ -85,6 +85,7 @@ type Cluster struct {
 	parkMu  sync.Mutex
 	parks   map[string]chan struct{} // key: name|gid|rid -> release channel (armed)
 	parked  map[string]bool
+	armSkip map[string]int // arrivals to let pass before parking
 	hits    map[string]int
 	OnPoint func(name string, gid, rid uint64) // called (in the hooked goroutine) for every point
 	Clock   int64                              // event counter maintained by the engine (message age)
@@ -349,6 +350,10 @@ func (cl *Cluster) pointHook(name string, gid, rid uint64) {
 	cl.parkMu.Lock()
 	cl.hits[k]++
 	ch, ok := cl.parks[k]
+	if ok && cl.armSkip[k] > 0 {
+		cl.armSkip[k]--
+		ok = false
+	}
 	if ok {
 		delete(cl.parks, k)
 		cl.parked[k] = true
@@ -362,10 +367,19 @@ func (cl *Cluster) pointHook(name string, gid, rid uint64) {
 // Arm makes the next arrival of the replica's goroutine at the named point
 // park until the returned release function is called.
 func (cl *Cluster) Arm(name string, p, m int) (release func(), isParked func() bool) {
+	return cl.ArmNth(name, p, m, 0)
+}
+
+// ArmNth is Arm for the (skip+1)-th arrival.
+func (cl *Cluster) ArmNth(name string, p, m int, skip int) (release func(), isParked func() bool) {
 	k := pkey(name, GroupID(p), ReplicaID(p, m))
 	ch := make(chan struct{})
 	cl.parkMu.Lock()
 	cl.parks[k] = ch
+	if cl.armSkip == nil {
+		cl.armSkip = map[string]int{}
+	}
+	cl.armSkip[k] = skip
 	delete(cl.parked, k)
 	cl.parkMu.Unlock()
 	released := false
